@@ -32,6 +32,7 @@ void __verif_check(int c, int id) { if (!c) { failed.push_back(id); finish("viol
 void __verif_cover(int id) { covers.push_back(id); }
 void __verif_observe(uint64_t v) { obs.push_back(v); }
 void __verif_expect_throw(int on) { expectThrow = on != 0; }
+uint64_t __verif_concretize(uint64_t v) { return v; }
 void __verif_assert_fail(int line) { char b[64]; snprintf(b, sizeof b, "violation:assert"); (void)line; finish(b); }
 }
 extern "C" void VERIF_ENTRY(void);
